@@ -24,6 +24,10 @@ CLAIMED = {
    text="Contracts on replicaIndex (in range, never the first replica, definition ridx) with the lemma that ridx is injective in the replica number, Replica.Contain, ShardAssignment.AddReplica (no duplicate, appended last, other shards and replica lists untouched), replicaLeaderElector.ElectLeader (leader is the first alive replica of the shard; error exactly when the shard is unknown or has no alive replica), assignReplicasToStorageNodes / ShardAssignment / ModifyShardAssignment (exactly the requested shard ids are added, existing shards and their replica lists are untouched, requests with replica factor above the number of nodes or non-positive counts are refused and change nothing) are discharged for all inputs.",
    note="Attempted, not claimed (did not discharge within the quick timeout, listed in the contract notes): every new shard gets exactly replicaFactor distinct replicas and the first replica is storageNodeIDs[(shard+start) % n] (the per-function facts replicaIndex in range / not first / injective ARE proved; the inductive loop invariant combining them is not). The event handlers of the state manager (onNodeFailure/onNodeStartup/initializeShardState) are not under contract yet: the statement's 'online exactly when a replica is alive' is decided only through ElectLeader's contract. math.rand is not modelled (fixedStartIndex >= 0 is required). Mathematical integers with explicit overflow obligations; sizes bounded by 10^6.",
    design="4/C18"),
+ "C14": dict(
+   text="Bit stream: bit.Writer (WriteBit/WriteByte/WriteBits/Flush/Reset) and bit.Reader (ReadBit/ReadByte/ReadBits/Reset) are proved against a bit-sequence view (append exactly the given bits, earlier bits untouched; read exactly the next bits, error only at end of data), with machine-checked lemmas that a bit range determines its value (tok_unique, bitsval closed form). XOR value codec: XORDecoder.Next is proved to compute the specification function xorDec* of (stream, position, decoder state); XOREncoder.Write is proved to append bits on which that function yields exactly the written 64-bit pattern, consumes exactly the appended bits and leaves encoder and decoder windows equal - the round trip for every uint64 pattern and every window state. Fixed-width offset table: FixedOffsetEncoder.Write emits header and little-endian entries (loop invariant), FixedOffsetDecoder.Unmarshal/Get read back any table of that shape, Uint32MinWidth is minimal and sufficient (lemma width_fits_every_value). Scalar lemmas: zig-zag round trip both ways, high/low 16-bit split, delta bit packing wrap-around algebra and width. Reuse: Reset of bit writer/reader, XOR encoder/decoder, fixed-offset encoder, TSDDecoder.reset/Reset/ResetWithTimeRange and the snappy reader/writer wrappers leave no state of the previous block (also on the error path).",
+   note="Not under contract (so not proved): TSDEncoder (two bytes.Buffer sinks, Bytes/flush glue), the sequence-level induction that composes the per-value round trip over a whole block, DeltaBitPackingEncoder.Bytes / Decoder.Reset/Next (stream.BufferWriter/Reader glue; only the scalar core and Add are proved), the roaring bitmap codec and the snappy algorithm itself (external libraries; only the reuse discipline of the wrappers is proved). Assumed: io.Writer appends what it is given (ghost view out/n; reliable sinks never fail), bytes.Buffer/binary/math/bits (clz/ctz characterised exactly)/snappy stream reset contracts, Go runtime maxAlloc bound on slice lengths, positions below 2^60 bits.",
+   design="4/C14"),
 }
 TECH = "contract-based deductive verification: //@ contracts on the real functions, VCs generated from go/ssa by govc, discharged by z3/cvc5"
 
